@@ -6,8 +6,8 @@
 //@ assumes: build metadata empty; pre-release is empty (c21_release_versions) or the literal "alpha" (c21_prerelease_versions)
 //@ decides: C21: a release version is rejected iff (major,minor,patch) < (0,61,0) lexicographically, for all u64 triples; a pre-release of x.y.z is rejected iff (x,y,z) <= (0,61,0); the minimum is read from the real min_supported_version()
 //@ outside: decoding of the envelope (msgpack), routing of the error to "previous data returned" (runner.rs), other pre-release strings
-//@ harness: name=c21_release_versions props=C21 cap=1800 cost=120 sym="major, minor, patch: any u64" bound="pre-release and build metadata empty; unwind 12"
-//@ harness: name=c21_prerelease_versions props=C21 cap=1800 cost=200 sym="major, minor, patch: any u64" bound="pre-release = alpha; unwind 12"
+//@ harness: name=c21_release_versions props=C21 tier=thorough core=0 cap=1800 cost=120 sym="major, minor, patch: any u64" bound="pre-release and build metadata empty; unwind 12"
+//@ harness: name=c21_prerelease_versions props=C21 tier=thorough core=0 cap=1800 cost=200 sym="major, minor, patch: any u64" bound="pre-release = alpha; unwind 12"
 //@ harness: name=c21_min_version_is_0_61_0 props=C21 cap=900 cost=40 sym="none (concrete): the constant behind the check" bound="-"
 
 use super::*;
